@@ -45,12 +45,16 @@ PROPS["C19"] = dict(
                "for the splitters, by a token budget on a real bufio.Scanner; 'does not read past the data' by exact-capacity buffers (a read past len "
                "panics) and by a poison differential over the spare capacity / the bytes after the declared length. The BGP PDUs, NLRI and path "
                "attributes inside MRT/BMP records are cargo taken from the bgp package (its codec is C04/C05). The daemon-emitted MRT/BMP records "
-               "half is a separate unit on the server simulator.",
+               "half is the unit 'daemon' on the server simulator: the bytes the speakers wrote / gobgp wrote are taken from a tap on the pipes, the "
+               "API views (ListPeer, ListPath GLOBAL/ADJ_IN) are the reference for tables; ListPath itself is C02's subject.",
     technique="runtime monitors (panic guard, buffer-unchanged, over-read poison differential, bufio.SplitFunc contract, real bufio.Scanner runs, "
               "stream-consumption accounting on an in-memory net.Conn) + round-trip / independent-reference-encoding oracle over generated messages",
     rule="case = one hostile input fed to the entry points of its protocol (quick: rtr 6e4, bfd 4e4, bmp 1.2e5, mrt 1.2e5, zapi 2.4e5 cases; thorough 20x), "
          "or one constructed message round-tripped; non-trivial iff a decoder was executed on it; distinct by (protocol, entry point, "
-         "version/flavour, message type, first error text with numbers stripped or ok)",
+         "version/flavour, message type, first error text with numbers stripped or ok); daemon unit: case = one scenario (idx%3==2: BMP station in real "
+         "time, else MRT update + table dump writers in virtual time; quick 60 MRT + 30 BMP scenarios, thorough 20x), non-trivial iff >=1 route record "
+         "(BGP4MP / RIB_* / route monitoring with routes) was emitted, distinct by scenario shape hash (global AS, peer kinds/address family/AS width/"
+         "ADD-PATH/2-octet-only, policy, local routes, monitoring policy, late station, session-loss kind)",
     assumptions=["a value is 'constructible' when it is built through the package's constructors / fields with in-range, mutually consistent field values "
                  "(e.g. RTR prefix length <= max length <= address bits, BMP TLV class matching its type code, 2-octet AS numbers in non-AS4 MRT records, "
                  "BMP per-peer timestamps on the microsecond grid)",
@@ -58,7 +62,14 @@ PROPS["C19"] = dict(
                  "messages) are not expected to round-trip; they are covered by the hostile-input monitors only",
                  "representation slack accepted as equal: nil vs empty slices, fields documented as derived on serialise (lengths, counts, nexthop type "
                  "from gate/ifindex, nexthop flag bits from label/weight/backup counts, prefix family from the address), BMP timestamps within 0.5 us",
-                 "allocation size is not monitored (not in the property text); the watchdog decides 'did not return' by a two-strike timeout"],
+                 "allocation size is not monitored (not in the property text); the watchdog decides 'did not return' by a two-strike timeout",
+                 "daemon unit: link-local next hops are left out of the attribute comparison (table.ProcessMessage drops them on input, so the API side "
+                 "never has them); a PEER_INDEX_TABLE may omit neighbours that are the source of no route and may hold the documented 0.0.0.0/AS 0 entry "
+                 "for local routes; a 2-octet BGP4MP record may carry AS_TRANS for a 4-octet AS; Loc-RIB path identifiers are opaque (one route per "
+                 "destination with the best path's attributes is what is required); monitoring policy 'both' (documented as obsolete) may monitor nothing",
+                 "daemon unit, BMP part runs in real time: every wait is bounded and a timeout ends INCONCLUSIVE; what is compared is decided by FIFO "
+                 "barriers (a marker route per peer that must reach every configured view) and a converge loop, never by elapsed time; 'no Peer Down "
+                 "after DeletePeer' is decided after two later barriers and the peer having seen its connection closed"],
     must_count=_C19_MUST,
     units=[
         dict(name="rtr", harness="t_rtr", files=["common_", "c19_"], run="TestVerifC19",
